@@ -164,6 +164,9 @@ def make_task_class(index: int):
                 else:
                     done = 0
                 if done >= after and (j < 0 or ctx.get("_jump_count", 0) < j):
+                    jctx = spec.get("jctx")  # context handed to the target with the jump: {key: value prefix}
+                    if jctx:
+                        return TaskResult.jump_to(spec["to"], context={k: f"{v}@{ctx.get('_jump_count', 0)}" for k, v in jctx.items()})
                     return TaskResult.jump_to(spec["to"])
                 return TaskResult.success(outputs=_emit(spec, label, ctx))
             if b == "fail_continue":
